@@ -6,6 +6,7 @@ use crate::rng::Rng;
 use crate::scenario::*;
 
 pub mod gen;
+pub mod universal;
 pub mod conv;
 pub mod c01;
 pub mod c02;
